@@ -6,6 +6,55 @@ import pipe_sat
 CTXS = ["segwitv0", "tap", "legacy", "bare"]
 
 
+PART_BYTES = int(os.environ.get("VERIF_PART_BYTES", 600 * 1000 * 1000))   # a trace file is deserialised whole by TLC: larger ones are validated in parts
+
+
+class Merged:
+    """results of several TLC runs over consecutive parts of one observation file"""
+    def __init__(self, rs):
+        self.rs = rs
+        self.distinct = sum(r.distinct for r in rs)
+        self.generated = sum(r.generated for r in rs)
+        self.secs = sum(r.secs for r in rs)
+
+    def tagged(self, t):
+        return [x for r in self.rs for x in r.tagged(t)]
+
+
+def trace_in_parts(wd, trace, obs, nev, ctx, trace_env, trace_workers):
+    """validate the observations (events are judged one by one, independently) - in one TLC run, or,
+    when the file is too large to deserialise into one heap, in consecutive parts"""
+    parts = []
+    if os.path.getsize(obs) <= PART_BYTES:
+        parts.append((obs, nev))
+    else:
+        q, size, n, fo = 0, 0, 0, None
+        with open(obs) as f:
+            for ln in f:
+                if fo is None or size + len(ln) > PART_BYTES:
+                    if fo:
+                        fo.close()
+                        parts.append((fo.name, n))
+                    fo, size, n, q = open("%s.tpart%d" % (obs, q), "w"), 0, 0, q + 1
+                fo.write(ln)
+                size += len(ln)
+                n += 1
+        if fo:
+            fo.close()
+            parts.append((fo.name, n))
+    rs = []
+    for path, n in parts:
+        r = tlc(wd, trace, trace + ".cfg", env=dict({"TRACE": path}, **(trace_env or {})), workers=trace_workers, heap="12g", timeout=3300)
+        done = r.tagged("TRACE_DONE")
+        if not r.ok or not done or done[0][1] != n or done[0][2] < n + 1:
+            log(r.out[-4000:])
+            raise ToolError("%s did not complete for %s" % (trace, ctx))
+        rs.append(r)
+        if path != obs:
+            os.remove(path)
+    return Merged(rs)
+
+
 def run(name, gen, cmd, trace, tier, seed, ctxs=CTXS, maxnodes=None, extra_cfg=None, extra_defs=None,
         count_event=None, sample_event=None, gen_heap="8g", trace_workers=10, universe=None, trace_env=None, post=None):
     """count_event(e, stats) updates counters; sample_event(e) -> sample or None"""
@@ -49,12 +98,8 @@ def run(name, gen, cmd, trace, tier, seed, ctxs=CTXS, maxnodes=None, extra_cfg=N
                     s = sample_event(e)
                     if s is not None:
                         stats["samples"].append(s)
-        r = tlc(wd, trace, trace + ".cfg", env=dict({"TRACE": obs}, **(trace_env or {})), workers=trace_workers, heap="12g", timeout=3300)
+        r = trace_in_parts(wd, trace, obs, nev, ctx, trace_env, trace_workers)
         stats.setdefault("tagged", {})[ctx] = {t: r.tagged(t) for t in ("RUNS", "ADV")}
-        done = r.tagged("TRACE_DONE")
-        if not r.ok or not done or done[0][1] != nev or done[0][2] < nev + 1:
-            log(r.out[-4000:])
-            raise ToolError("%s did not complete for %s" % (trace, ctx))
         vs = r.tagged("VERDICT")
         for v in vs:
             verdicts.append({"prop": v[1], "clause": v[2], "event": v[3], "j": v[4], "detail": v[5], "ctx": ctx, "obs": obs})
